@@ -159,4 +159,75 @@ theorem lin_step (g : G) (t : Tid) (k : Key) (x : Nat) :
             cases pc <;> first | rfl | exact absurd rfl (h1 _ _ _) | exact absurd rfl (h2 _ _ _)
           rw [this]; simp only [specLin]
 
+theorem specLin_congr {m m' : Key → Nat → Prop} (h : ∀ k x, m k x ↔ m' k x) (al : Nat → Prop) (l : Lin) (k : Key) (x : Nat) :
+    specLin m al l k x ↔ specLin m' al l k x := by
+  cases l <;> simp only [specLin, h]
+
+theorem absRun_congr {m m' : Key → Nat → Prop} (h : ∀ k x, m k x ↔ m' k x) (g : G) (sched : List Tid) (k : Key) (x : Nat) :
+    absRun m g sched k x ↔ absRun m' g sched k x := by
+  induction sched generalizing g m m' with
+  | nil => exact h k x
+  | cons t ts ih => exact ih (fun k x => specLin_congr h _ _ k x) (step g t)
+
+/-- refinement along a whole schedule -/
+theorem lin_run (g : G) (sched : List Tid) (k : Key) (x : Nat) :
+    x ∈ membersOf (run g sched).st k ↔ absRun (fun k x => x ∈ membersOf g.st k) g sched k x := by
+  induction sched generalizing g with
+  | nil => exact Iff.rfl
+  | cons t ts ih =>
+    show x ∈ membersOf (run (step g t) ts).st k ↔ _
+    rw [ih (step g t)]
+    exact absRun_congr (fun k x => lin_step g t k x) (step g t) ts k x
+
+/-! ### change records carry the recipients of the instant of the change -/
+
+theorem call_records (st : State) (pc : Pc) : ∀ p ∈ (callStep st pc).2.2.1, p.to = recipients st (p.s, p.g) := by
+  cases pc with
+  | joinFiltered s g as =>
+    intro p hp
+    simp only [callStep, joinEntry] at hp
+    split at hp
+    · simp at hp
+    · simp only [Option.toList_some, List.mem_singleton] at hp; rw [hp]
+  | leave s g as =>
+    intro p hp
+    simp only [callStep, leaveEntry] at hp
+    split at hp
+    · simp at hp
+    · simp only [Option.toList_some, List.mem_singleton] at hp; rw [hp]
+  | _ => intro p hp; simp [callStep] at hp
+
+theorem ex_records (st : State) (b : Nat) (ph : Phase) (r : ExReg) :
+    ∀ p ∈ exRecs st b ph r, p.to = recipients st (p.s, p.g) ∧ p.isJoin = false ∧ p.actors = [b] := by
+  cases r with
+  | lvKey k =>
+    cases ph with
+    | leaving mk rm =>
+      intro p hp
+      simp only [exRecs] at hp
+      split at hp
+      · unfold leaveKey at hp
+        split at hp
+        · simp only [Option.map_some, Option.toList_some, List.mem_singleton] at hp
+          rw [hp]; exact ⟨rfl, rfl, rfl⟩
+        · simp at hp
+      · simp at hp
+    | _ => intro p hp; simp [exRecs] at hp
+  | _ => intro p hp; simp [exRecs] at hp
+
+theorem records_step (g : G) (t : Tid) :
+    ∃ new, (step g t).changes = g.changes ++ new ∧ ∀ p ∈ new, p.to = recipients g.st (p.s, p.g) := by
+  cases t with
+  | ex b r =>
+    by_cases hg : r = .mark ∧ b ∈ g.st.dead
+    · rw [step_ex_guard g b r hg]; exact ⟨[], by simp, by simp⟩
+    · rw [step_ex g b r hg]
+      exact ⟨_, rfl, fun p hp => (ex_records g.st b _ r p hp).1⟩
+  | call i =>
+    cases hp : g.thr[i]? with
+    | none => rw [step_call_none g i hp]; exact ⟨[], by simp, by simp⟩
+    | some pc =>
+      rw [step_call_some g i pc hp]
+      exact ⟨_, rfl, call_records g.st pc⟩
+
 end Pg.Conc
